@@ -41,6 +41,10 @@ pub(crate) struct Thread {
     /// anywhere else).
     parked: bool,
 
+    /// Causality of the threads that stored the `unpark` token. It is
+    /// acquired when the token is consumed by `park`, not when it is stored.
+    unpark_causality: VersionVec,
+
     locals: LocalMap,
 
     /// `tracing` span used to associate diagnostics with the current thread.
@@ -112,6 +116,7 @@ impl Thread {
             yield_count: 0,
             unparked: false,
             parked: false,
+            unpark_causality: VersionVec::new(),
             locals: HashMap::new(),
         }
     }
@@ -130,6 +135,8 @@ impl Thread {
     pub(crate) fn set_parked(&mut self, location: Location) -> bool {
         if self.unparked {
             self.unparked = false;
+            let unpark_causality = self.unpark_causality;
+            self.causality.join(&unpark_causality);
             return false;
         }
 
@@ -176,7 +183,14 @@ impl Thread {
     }
 
     pub(crate) fn unpark(&mut self, unparker: &Thread) {
-        self.causality.join(&unparker.causality);
+        if self.parked {
+            // `unpark` synchronizes with the return of `park`
+            self.causality.join(&unparker.causality);
+        } else {
+            // ... which may happen later, or never
+            self.unpark_causality.join(&unparker.causality);
+        }
+
         self.set_unparked();
     }
 
